@@ -10,7 +10,7 @@
  "defines": ["VERIF_HALLOC", "HM_DMAX=0", "HM_LOGN=3"],
  "matrix": {"DR_GEN_PART": [1, 2, 3, 4]},
  "models": ["models/drbg_hmac.c", "models/drbg_os.c"],
- "timeout": 600,
+ "timeout": 900,
  "assumptions": ["HMAC-SHA256 is an abstract leaf (models/drbg_hmac.c): its conformance is C01's",
                  "update() inlined; request length arbitrary in [0, 65536] (loop closed by its contract)"]
 }
